@@ -214,9 +214,11 @@ func runScenario(sc scen, rng *rand.Rand) []rec.Event {
 			var k int
 			var werr error
 			done := make(chan struct{})
+			sim.Note("writeCall", n)
 			go func() {
 				defer close(done)
 				pan = guard(func() { k, werr = conn.Write(p) })
+				sim.Note("writeRet", k)
 			}()
 			select {
 			case <-done:
@@ -235,7 +237,8 @@ func runScenario(sc scen, rng *rand.Rand) []rec.Event {
 		if f, ok := conn.(interface{ Flush() error }); ok {
 			var ferr error
 			done := make(chan struct{})
-			go func() { defer close(done); pan = guard(func() { ferr = f.Flush() }) }()
+			sim.Note("flushCall", 0)
+			go func() { defer close(done); pan = guard(func() { ferr = f.Flush() }); sim.Note("flushRet", 0) }()
 			select {
 			case <-done:
 				// Flush returns only when the TNC reports no outstanding frames
@@ -365,6 +368,7 @@ func runScenario(sc scen, rng *rand.Rand) []rec.Event {
 			log.Print("MARK end")
 		}
 		close(stopRead)
+		sim.Note("closeCall", 0)
 		guard(func() { conn.Close() })
 		closed = true
 		select {
@@ -433,6 +437,7 @@ func runScenario(sc scen, rng *rand.Rand) []rec.Event {
 		}
 	}
 	if !closed {
+		sim.Note("closeCall", 0)
 		var cerr error
 		done := make(chan struct{})
 		go func() { defer close(done); pan = guard(func() { cerr = conn.Close() }) }()
@@ -521,6 +526,7 @@ func (r *result) tnc(sim *Sim, sc scen, written []byte, connected bool) {
 		}
 	}
 	if sc.Kind == "outbound" || len(sc.Writes) > 0 {
+		r.add(rec.Event{"op": "TxLog", "maxframe": sim.MaxFrame, "log": sim.TxLog()})
 		r.add(rec.Event{"op": "TncData", "wellformed": wellformed, "payloadOK": bytes.Equal(payload, written), "got": len(payload), "want": len(written)})
 		r.add(rec.Event{"op": "Exchange", "name": "poll", "seen": has('Y')})
 	}
